@@ -91,7 +91,7 @@ def gen_case(run_seed: int, index: int, tier: str) -> dict:
         return case
     n, k = enc.code_length, enc.code_dimension
     case.update({"decoder": dk, "dec_opts": {}, "advertised_d": d, "d_source": dsrc, "clause": clause})
-    B = rng.choice([1, 1, 2, 3, 4])
+    B = rng.choice([1, 1, 2, 3, 4, 4, 8])
     case["B"] = B
     walk = n <= 15 and rng.random() < 0.5  # deterministic walk over messages / patterns of small codes
     msgs = []
